@@ -141,3 +141,21 @@ Proof.
       pose proof (step_spec _ _ _ _ _ E Hinv) as (_ & _ & X). unfold ExMono, ex1, ex2 in X. lia. }
     lia.
 Qed.
+
+(** ------------------------------------------------------------------ no round-trip profit, any operation mix:
+    a history that brings the LP supply back to where it started (swaps by anyone, liquidity added and later
+    removed, donations, fee hand-offs, failed calls) cannot leave the pool with no more of either token and
+    strictly less of one — generalises [swaps_no_profit] from swap-only histories. *)
+Lemma run_same_S_no_profit ops p : PairInv p -> 0 < p_S p -> p_S (run p ops) = p_S p ->
+  ~ (p_r1 (run p ops) <= p_r1 p /\ p_r2 (run p ops) <= p_r2 p /\
+     (p_r1 (run p ops) < p_r1 p \/ p_r2 (run p ops) < p_r2 p)).
+Proof.
+  intros Hinv HS ES (L1 & L2 & L3).
+  destruct (run_K ops p Hinv HS) as (HS' & HK). rewrite ES in HK.
+  destruct (i_pos _ (run_inv ops p Hinv) HS') as (P1 & P2 & _).
+  destruct (i_pos _ Hinv HS) as (Q1 & Q2 & _).
+  assert (SS : 0 < p_S p * p_S p) by nia.
+  assert (K : p_r1 p * p_r2 p <= p_r1 (run p ops) * p_r2 (run p ops)).
+  { apply Z.mul_le_mono_pos_r with (p := p_S p * p_S p); assumption. }
+  destruct L3 as [L3|L3]; nia.
+Qed.
